@@ -61,6 +61,12 @@ func (h *Hash) Evaluation(
 			return err
 		}
 
+		// { x }: not a key with a value; the closer must not be read as the
+		// value, or the literal runs on to the end of the input
+		if nextT == nil || nextT.IsTargetIdentifier("}") {
+			break
+		}
+
 		if nextT.IsTargetIdentifier("=>") {
 			nextT, err = p.Read()
 			if err != nil {
